@@ -67,16 +67,73 @@ theorem recover_close (v : String → Bool) (l : List S) (w : SSt) (hl : l = [.c
   rw [interpS_panic]
   rfl
 
-/-- **Suspend while suspended** takes the early return: nothing is written, no state changes. -/
-theorem suspend_suspended (v : String → Bool) (w : SSt) (h : w.suspended = true) : interpS v 64 suspend w = w := by
-  unfold suspend
-  exact interpS_return v 63 _ _ _ w (by decide +kernel) (by rw [guard_suspended]; exact h)
+/-- `.other` statements the interpreter gives no effect. -/
+def neutralOther (src : String) : Bool :=
+  !src.startsWith "return" && decide (src ≠ "_, col := vx.CursorPosition()") &&
+  decide (src ≠ "vx.cursorLast.style = vx.userCursorStyle") && decide (src ≠ "err := vx.openTty(tgts)") &&
+  decide (src ≠ "vx.suspended = true") && decide (src ≠ "vx.suspended = false") && decide (src ≠ "vx.closed = true")
+
+/-- The statement list starts — after statements without effect on the writer (locks, hooks, logging,
+    calls of functions that write nothing, defers) — with a `return` guarded by exactly the flag `flag`. -/
+def returnsEarly (flag : String) : List S → Bool
+  | [] => false
+  | .other g src :: rest =>
+      if src.startsWith "return" then g == .v flag else neutralOther src && returnsEarly flag rest
+  | .call _ f :: rest => decide (f ≠ "HideCursor") && (table f).isNone && returnsEarly flag rest
+  | .deferCall _ :: rest => returnsEarly flag rest
+  | _ => false
+
+/-- A function whose skeleton `returnsEarly flag` does nothing at all when the flag is set. -/
+theorem interpS_returnsEarly (v : String → Bool) (flag : String) (w : SSt) (hw : guardEnv v w flag = true) :
+    ∀ (l : List S) (fuel : Nat), returnsEarly flag l = true → l.length ≤ fuel → interpS v fuel l w = w := by
+  intro l
+  induction l with
+  | nil => intro fuel h; simp [returnsEarly] at h
+  | cons s rest ih =>
+    intro fuel h hlen
+    cases fuel with
+    | zero => simp at hlen
+    | succ n =>
+      have hlen' : rest.length ≤ n := by simpa using hlen
+      cases s with
+      | other g src =>
+        simp only [returnsEarly] at h
+        by_cases hr : src.startsWith "return" = true
+        · simp only [hr, if_true, beq_iff_eq] at h
+          subst h
+          exact interpS_return v n _ _ _ w hr (by simpa [evalV] using hw)
+        · simp only [hr, Bool.false_eq_true, if_false, Bool.and_eq_true] at h
+          obtain ⟨hn, hrest⟩ := h
+          simp only [neutralOther, Bool.and_eq_true, Bool.not_eq_true', decide_eq_true_eq] at hn
+          obtain ⟨⟨⟨⟨⟨⟨h0, h1⟩, h2⟩, h3⟩, h4⟩, h5⟩, h6⟩ := hn
+          rw [interpS]
+          simp only [h0, Bool.false_and, Bool.false_eq_true, if_false, h1, h2, h3, h4, h5, h6]
+          exact ih n hrest hlen'
+      | call g f =>
+        simp only [returnsEarly, Bool.and_eq_true, decide_eq_true_eq, Option.isNone_iff_eq_none] at h
+        obtain ⟨⟨hf, ht⟩, hrest⟩ := h
+        rw [interpS]
+        simp only [Bool.false_eq_true, if_false, hf, ht]
+        have : (if (!evalV (guardEnv v w) g) = true then w else w) = w := by split <;> rfl
+        rw [this]
+        exact ih n hrest hlen'
+      | deferCall f =>
+        simp only [returnsEarly] at h
+        rw [interpS]
+        simp only [Bool.false_eq_true, if_false]
+        exact ih n h hlen'
+      | write g x => simp [returnsEarly] at h
+      | writeF g x => simp [returnsEarly] at h
+      | direct g x => simp [returnsEarly] at h
+      | flush g => simp [returnsEarly] at h
+
+/-- **Suspend while suspended** takes the early return: nothing is written, no state changes
+    (the skeleton of the regenerated `Suspend` is checked by kernel evaluation). -/
+theorem suspend_suspended (v : String → Bool) (w : SSt) (h : w.suspended = true) : interpS v 64 suspend w = w :=
+  interpS_returnsEarly v "suspended" w (by simpa [guardEnv] using h) suspend 64 (by decide +kernel) (by decide +kernel)
 
 /-- **Close when closed** takes the early return (after taking and releasing the lock). -/
-theorem close_closed (v : String → Bool) (w : SSt) (h : w.closed = true) : interpS v 64 close w = w := by
-  unfold close
-  rw [interpS_call_none v 63 _ _ _ w (by decide) (by decide +kernel)]
-  rw [interpS_call_none v 62 _ _ _ w (by decide) (by decide +kernel)]
-  exact interpS_return v 61 _ _ _ w (by decide +kernel) (by rw [guard_closed]; exact h)
+theorem close_closed (v : String → Bool) (w : SSt) (h : w.closed = true) : interpS v 64 close w = w :=
+  interpS_returnsEarly v "closed" w (by simpa [guardEnv] using h) close 64 (by decide +kernel) (by decide +kernel)
 
 end VaxisModel.Lemmas.C04Interp
